@@ -156,7 +156,7 @@ fn gen_front_program(r: &mut Rng, f: &Frame, allow_oneshot: bool) -> Program {
     Program {
         front,
         ops,
-        source: SourceScript { chunks: gen_chunks(r), eof_at: None, faults: vec![] },
+        source: SourceScript { chunks: gen_chunks(r), eof_at: None, faults: vec![], pauses: vec![] },
         finisher: true,
         explicit_init: r.chance(1, 4),
         target: f.data.len() + *r.pick(&[0usize, 1, 4096]),
